@@ -1,2 +1,60 @@
-From Astisub Require Import Kit.Base Model.Srt.
-Theorem C01_placeholder : True. Proof. exact I. Qed.
+(* C01 — SubRip codec fidelity.
+   Writing side, for ALL cue lists (no size bound): every representable list is written to a document that the
+   reader maps back to the same cues (times truncated to the millisecond, cues renumbered 1..n, every line and every
+   styled run unchanged); '&', '<' and the no-break space survive (escape/unescape inverse law); a written line is
+   parsed back into exactly its runs.  Reading side: the three line-ending conventions denote the same document;
+   the reader is a function of the line list only (delivery schedule: C17), never panics (C08) and reports read
+   faults (C18).  The other renderings the format tolerates (index garbage, blank-line padding, separators,
+   fraction digits, coordinates, spacing) are decided on the implementation by the ground-truth oracle of the
+   harness and on the model by the correspondence (suite srtread); theorems for them are in Proofs/SrtReadProofs.v
+   once present.  Faithful domain of the markup tokenizer model: Kit.Html.html_simple (outside it the harness
+   compares result classes only). *)
+From Coq Require Import List ZArith NArith Bool.
+From Astisub Require Import Kit.Base Kit.Str Kit.Scan Kit.Html Model.Dur Model.Srt.
+From Astisub Require Import Proofs.SrtEscProofs Proofs.SrtProofs Proofs.EolProofs Proofs.SrtIOProofs.
+Import ListNotations.
+
+(* the document written for a representable cue list is read back as that list *)
+Theorem C01_write_read : forall l : list sitem, Forall repr_item l -> l <> [] ->
+  (Z.of_nat (length l) <= max_int64)%Z ->
+  exists data, write_srt l = Ok data /\ read_srt data = Ok (renumber_truncate l).
+Proof. exact read_write_srt. Qed.
+Print Assumptions C01_write_read.
+
+(* a written text line is parsed back into exactly its styled runs, the style state returning to neutral *)
+Theorem C01_line_roundtrip : forall l : list srun, repr_line l ->
+  parse_text_srt (concat (map run_bytes l)) sa0 = (l, sa0).
+Proof. exact parse_written_line. Qed.
+Print Assumptions C01_line_roundtrip.
+
+(* '&', '<', no-break space (every byte string): what the writer escapes the reader unescapes *)
+Theorem C01_escape_inverse : forall s : str, unescape_html (escape_html s) = s.
+Proof. exact unescape_escape. Qed.
+Print Assumptions C01_escape_inverse.
+
+(* LF, CR LF and lone CR denote the same document: the reader sees exactly the lines that were rendered *)
+Theorem C01_eol : forall e (ls : list str), eol_ok e -> Forall brkfree ls ->
+  read_srt (render_eol e ls) = read_srt_lines ls false.
+Proof. intros e ls He HF. unfold read_srt. rewrite (lines_render e ls He HF). reflexivity. Qed.
+Print Assumptions C01_eol.
+
+Theorem C01_eol_independent : forall e e' (ls : list str), eol_ok e -> eol_ok e' -> Forall brkfree ls ->
+  read_srt (render_eol e ls) = read_srt (render_eol e' ls).
+Proof. intros e e' ls He He' HF. unfold read_srt. rewrite (lines_eol_independent e e' ls He He' HF). reflexivity. Qed.
+Print Assumptions C01_eol_independent.
+
+(* an unterminated last line is still a line *)
+Theorem C01_eol_last_line : forall e (ls : list str) last, eol_ok e -> Forall brkfree ls -> brkfree last -> last <> [] ->
+  read_srt (render_eol e ls ++ last) = read_srt_lines (ls ++ [last]) false.
+Proof. intros e ls last He HF Hl Hne. unfold read_srt. rewrite (lines_render_unterminated e ls last He HF Hl Hne). reflexivity. Qed.
+Print Assumptions C01_eol_last_line.
+
+(* the reader never panics, whatever the lines *)
+Theorem C01_reader_total : forall ls e p, read_srt_lines ls e <> Panic p.
+Proof. exact read_srt_lines_no_panic. Qed.
+Print Assumptions C01_reader_total.
+
+(* non-vacuity: a four-cue list with styled multi-run lines, '&', '<', nbsp, a digits-only text line, a cue
+   without lines and times off the millisecond grid satisfies the hypotheses of C01_write_read *)
+Example C01_example : Forall repr_item ex_items /\ ex_items <> [].
+Proof. split; [exact ex_items_repr | discriminate]. Qed.
